@@ -487,6 +487,86 @@ def p_endless(I, n, pos, kw):
     return I.unknown("prim:itertools.cycle", n)
 
 
+@prim("numpy.errstate", "warnings.catch_warnings", "contextlib.nullcontext", "contextlib.suppress", "numpy.printoptions")
+def p_library_context(I, n, pos, kw):
+    """library context managers that change no value the evaluator follows (floating-point error state is not modelled:
+    exact arithmetic; warnings are effects)"""
+    return ObjV(None, {}, tag="context")
+
+
+@prim("warnings.simplefilter", "warnings.filterwarnings", "numpy.seterr")
+def p_library_setting(I, n, pos, kw):
+    return NoneV()
+
+
+@prim("inspect.signature")
+def p_signature(I, n, pos, kw):
+    """inspect.signature(f) of a function of the package: an object whose bind() names the arguments of a call"""
+    f = pos[0] if pos else None
+    if isinstance(f, FuncV) and f.kind == "repo" and f.target in I.p.functions:
+        return ObjV(None, {"func": f}, tag="signature")
+    return I.unknown("prim:inspect.signature", n)
+
+
+def _signature_bind(I, n, recv, pos, kw, partial=False):
+    f = recv.attrs.get("func") if isinstance(recv, ObjV) and recv.tag == "signature" else None
+    if f is None:
+        return I.unknown("method:bind", n)
+    node = I.p.functions[f.target].node
+    a = node.args
+    names = [x.arg for x in a.posonlyargs + a.args]
+    if f.bound_self is not None and names:
+        names = names[1:]
+    if len(pos) > len(names) and not a.vararg:
+        return I.unknown("bind-too-many-positional", n)
+    d = {}
+    for nm, v in zip(names, pos):
+        d[nm] = v
+    if a.vararg and len(pos) > len(names):
+        d[a.vararg.arg] = Seq(list(pos[len(names):]), "tuple")
+    known = set(names) | {x.arg for x in a.kwonlyargs}
+    extra = {}
+    for k_, v in kw.items():
+        if k_ in known:
+            d[k_] = v
+        else:
+            extra[k_] = v
+    if extra:
+        if not a.kwarg:
+            return I.unknown("bind-unexpected-keyword", n)
+        d[a.kwarg.arg] = DictV(extra)
+    # arguments appear in the order of the signature
+    order = names + ([a.vararg.arg] if a.vararg else []) + [x.arg for x in a.kwonlyargs] + ([a.kwarg.arg] if a.kwarg else [])
+    return ObjV(None, {"arguments": DictV({k_: d[k_] for k_ in order if k_ in d}), "signature": recv}, tag="bound-arguments")
+
+
+@method("bind")
+def m_bind(I, n, recv, pos, kw):
+    return _signature_bind(I, n, recv, pos, kw)
+
+
+@method("bind_partial")
+def m_bind_partial(I, n, recv, pos, kw):
+    return _signature_bind(I, n, recv, pos, kw, partial=True)
+
+
+@method("apply_defaults")
+def m_apply_defaults(I, n, recv, pos, kw):
+    if not (isinstance(recv, ObjV) and recv.tag == "bound-arguments"):
+        return I.unknown("method:apply_defaults", n)
+    f = recv.attrs["signature"].attrs["func"]
+    fi = I.p.functions[f.target]
+    a = fi.node.args
+    ps = [x.arg for x in a.posonlyargs + a.args]
+    dflt = dict(zip(ps[len(ps) - len(a.defaults):], a.defaults))
+    dflt.update({x.arg: d for x, d in zip(a.kwonlyargs, a.kw_defaults) if d is not None})
+    args = recv.attrs["arguments"]
+    for nm in ps + [x.arg for x in a.kwonlyargs]:
+        if nm not in args.d and nm in dflt:
+            args.d[nm] = I._eval_in_module(fi.module, dflt[nm])
+    return NoneV()
+
+
 @prim("builtins.next")
 def p_next(I, n, pos, kw):
     # next(<generator over a concrete list with decided conditions>[, default]): the comprehension is evaluated eagerly
@@ -2351,6 +2431,15 @@ def m_sort_inplace(I, n, recv, pos, kw):
 
 @method("pop")
 def m_pop(I, n, recv, pos, kw):
+    if isinstance(recv, DictV) and recv.generic is None and pos and isinstance(pos[0], StrV):
+        # dict.pop(key[, default]) on a dictionary whose keys are all known
+        if pos[0].s in recv.d:
+            return recv.d.pop(pos[0].s)
+        if len(pos) > 1:
+            return pos[1]
+        from .absint import Raised
+        I.event("raise", n, exc="KeyError", definite=not I.path, message=f"pop({pos[0].s!r}) from a dict without that key")
+        raise Raised("KeyError")
     if isinstance(recv, Seq) and recv.kind == "list" and not hasattr(recv, "appended"):
         k = -1
         if pos:
